@@ -57,6 +57,7 @@ PINS = [("androguard/core/dex/__init__.py", "MapList.__init__"), ("androguard/co
         ("androguard/core/dex/__init__.py", "DEX.get_encoded_field_descriptor"), ("androguard/core/dex/__init__.py", "DEX.get_strings"),
         # the extended model (Model/DexFileX.lean): encoded arrays, annotations, the rest of ClassDefItem.reload
         ("androguard/core/dex/__init__.py", "EncodedArrayItem.__init__"), ("androguard/core/dex/__init__.py", "EncodedArray.__init__"), ("androguard/core/dex/__init__.py", "EncodedValue.__init__"), ("androguard/core/dex/__init__.py", "EncodedValue._getintvalue"), ("androguard/core/dex/__init__.py", "EncodedValue._getfloatvalue"), ("androguard/core/dex/__init__.py", "AnnotationItem.__init__"), ("androguard/core/dex/__init__.py", "EncodedAnnotation.__init__"), ("androguard/core/dex/__init__.py", "AnnotationElement.__init__"), ("androguard/core/dex/__init__.py", "AnnotationSetItem.__init__"), ("androguard/core/dex/__init__.py", "AnnotationOffItem.__init__"), ("androguard/core/dex/__init__.py", "AnnotationSetRefList.__init__"), ("androguard/core/dex/__init__.py", "AnnotationSetRefItem.__init__"), ("androguard/core/dex/__init__.py", "AnnotationsDirectoryItem.__init__"), ("androguard/core/dex/__init__.py", "FieldAnnotation.__init__"), ("androguard/core/dex/__init__.py", "MethodAnnotation.__init__"), ("androguard/core/dex/__init__.py", "ParameterAnnotation.__init__"), ("androguard/core/dex/__init__.py", "ClassManager.get_encoded_array_item"), ("androguard/core/dex/__init__.py", "ClassManager.get_annotations_directory_item"), ("androguard/core/dex/__init__.py", "ClassManager.get_annotation_set_item"), ("androguard/core/dex/__init__.py", "ClassManager.get_annotation_item"), ("androguard/core/dex/__init__.py", "ClassDataItem.set_static_fields"), ("androguard/core/dex/__init__.py", "ClassDefItem.get_annotations"), ("androguard/core/dex/__init__.py", "ClassDefItem._get_annotation_type_ids"), ("androguard/core/dex/__init__.py", "AnnotationsDirectoryItem.get_annotation_set_item"), ("androguard/core/dex/__init__.py", "AnnotationOffItem.get_annotation_item"), ("androguard/core/dex/__init__.py", "FieldIdItem.get_list"), ("androguard/core/dex/__init__.py", "MethodIdItem.get_list"), ("androguard/core/dex/__init__.py", "FieldIdItemInvalid.get_list"), ("androguard/core/dex/__init__.py", "MethodIdItemInvalid.get_list"), ("androguard/core/dex/__init__.py", "EncodedField.set_init_value"),
+        ("androguard/core/dex/__init__.py", "DebugInfoItem.__init__"), ("androguard/core/dex/__init__.py", "ClassManager.get_debug_off"), ("androguard/core/dex/__init__.py", "DalvikCode.get_debug"), ("androguard/core/dex/__init__.py", "EncodedMethod.get_debug"), ("androguard/core/dex/__init__.py", "readuleb128p1"),
         ("androguard/core/dex/dex_types.py", "TypeMapItem.determine_load_order"),
         ("androguard/core/dex/dex_types.py", "TypeMapItem._get_dependencies")]
 
@@ -549,6 +550,119 @@ def x_streams(ck, drv, big):
     return dist
 
 
+KEY_GET_DEBUG = "get-debug-off-seeks-on-dex-object"
+
+
+def show_debug_real(di):
+    ops = ";".join("%d:%s" % (b.get_op_value(), ",".join(str(v) for v, _t in b.format)) for b in di.get_bytecodes())
+    return "%d [%s] %s" % (di.get_line_start(), ",".join(str(x) for x in di.get_parameter_names()), ops)
+
+
+def debug_streams(ck, drv):
+    """debug_info_item: the item constructor on raw bytes (`debuginfo`), and EncodedMethod.get_debug() of every
+    method with code of generated files (`dexdbg`), real vs model; oracle for the files: the generator's line
+    start and parameter names"""
+    dex = _dex()
+    cm = _CM()
+    cm.packer = dex.DalvikPacker(0x12345678)
+    rng = ck.rng
+    from harness.dexasm import uleb128, sleb128, uleb128p1
+    reqs, real = [], []
+    n = 30000 if ((not ck.quick) or ck.escalated) else 1500
+    kinds = {1: "u", 2: "s", 3: "upp", 4: "uppp", 5: "u", 6: "u", 9: "p"}
+    for i in range(n):
+        pad = rng.choice([None, None, None, 2, 5])
+        np_ = rng.choice([0, 0, 1, 2, 3])
+        bs = uleb128(rng.choice([0, 1, 127, 128, 70000, 2 ** 32 - 1]), pad) + uleb128(np_, pad)
+        for _ in range(np_):
+            bs += uleb128p1(rng.choice([-1, 0, 5, 300]), pad)
+        for _ in range(rng.randrange(0, 8)):
+            op = rng.choice([1, 2, 3, 4, 5, 6, 7, 8, 9, 10, 0x7f, 0xff, rng.randrange(1, 256)])
+            bs += bytes([op])
+            for k in kinds.get(op, ""):
+                if k == "u":
+                    bs += uleb128(rng.choice([0, 1, 200, 65535, 2 ** 28]), pad)
+                elif k == "s":
+                    bs += sleb128(rng.choice([0, -1, 1, -64, 63, 64, -65, 2 ** 31 - 1, -2 ** 31, 100000]), pad)
+                else:
+                    bs += uleb128p1(rng.choice([-1, 0, 7, 1000]), pad)
+        if rng.random() < 0.85:
+            bs += b"\x00"
+        bs += bytes(rng.randrange(256) for _ in range(rng.randrange(0, 3)))
+        if rng.random() < 0.2:
+            bs = bs[:rng.randrange(len(bs) + 1)]
+        if rng.random() < 0.1:
+            bs = bytes(rng.randrange(256) for _ in range(rng.randrange(0, 12)))
+        reqs.append("debuginfo " + hexs(bs))
+        try:
+            buf = io.BufferedReader(io.BytesIO(bs))
+            di = dex.DebugInfoItem(buf, cm)
+            real.append("ok %d %s" % (buf.tell(), show_debug_real(di)))
+        except struct.error:
+            real.append("err")
+    ck.compare("debuginfo", reqs, real, drv.ask(reqs))
+    # file level: get_debug() of every method with code
+    freqs, freal, fcases = [], [], []
+    accessor_broken = []
+    nf = 4000 if not ck.quick else (1000 if ck.escalated else 150)
+    ndbg = 0
+    for i in range(nf):
+        model = M.gen_model(rng)
+        data, b = M.build(model)
+        try:
+            d = dex.DEX(data)
+            parts = []
+            for m in d.get_encoded_methods():
+                c = m.get_code()
+                if c is None:
+                    continue
+                try:
+                    try:
+                        di = m.get_debug()
+                    except AttributeError as e:
+                        # known finding: ClassManager.get_debug_off seeks on the DEX object instead of its buffer
+                        if "seek" not in str(e):
+                            raise
+                        if not accessor_broken:
+                            accessor_broken.append(True)
+                            ck.fail({"origin": "dbg:%d" % i, "model": model, "accessor": "EncodedMethod.get_debug()"},
+                                    "EncodedMethod.get_debug() raises AttributeError on every parsed file "
+                                    "(ClassManager.get_debug_off calls seek on the DEX object, not on its buffer)",
+                                    KEY_GET_DEBUG, "a DebugInfoItem", "AttributeError: " + str(e))
+                        d.raw.seek(c.get_debug_info_off())        # what get_debug_off is meant to do (fixes/C05-get-debug-off.diff)
+                        di = dex.DebugInfoItem(d.raw, d.get_class_manager())
+                    parts.append("%d=%s" % (c.get_debug_info_off(), show_debug_real(di)))
+                except struct.error:
+                    parts.append("%d=err" % c.get_debug_info_off())
+            rl = "ok " + "|".join(parts)
+        except struct.error:
+            rl = "err struct.error"
+        except Exception as e:  # noqa
+            rl = "err " + exc_name(e)
+        freqs.append("dexdbg " + hexs(data))
+        freal.append(rl)
+        fcases.append(("dbg:%d" % i, model))
+        # oracle: methods the generator gave debug info report its line start and parameter names (string indices)
+        exp = {}
+        for c in model["classes"]:
+            for m in c["dmethods"] + c["vmethods"]:
+                if m[4] is not None and m[4].get("debug") is not None:
+                    ref = (M.A.norm_str(c["name"]), M.A.norm_str(m[0]), M.A.norm_str(m[1]), tuple(M.A.norm_str(p) for p in m[2]))
+                    off = b.layout["debug_info"].get(ref, 0)
+                    line, pnames = m[4]["debug"]
+                    exp[off] = "%d [%s] 0:" % (line, ",".join(str(-1 if p is None else b.string_idx(p)) for p in pnames))
+        got = dict(p.split("=", 1) for p in rl[3:].split("|") if "=" in p) if rl.startswith("ok ") else {}
+        for off, want in exp.items():
+            ndbg += 1
+            if got.get(str(off)) != want:
+                ck.fail({"origin": "dbg:%d" % i, "model": model, "debug_off": off}, "debug info of a method differs from what the file declares",
+                        None, want, str(got.get(str(off))))
+                break
+    ck.compare("dexdbg", ["dexdbg <%s>" % c[0] for c in fcases], freal, drv.ask(freqs))
+    ck.cover(evaluations=ndbg, dist={"debuginfo_item_cases": len(reqs), "debuginfo_item_errors": sum(1 for r in real if r == "err"),
+                                     "dexdbg_files": len(freqs), "dexdbg_methods_with_debug_info": ndbg})
+
+
 def load_corpus():
     out = []
     for p in sorted(glob.glob(os.path.join(CORPUS, "*.json"))):
@@ -649,6 +763,8 @@ def run(ck: Check):
     ck.cover(dist={"missing_section_files": len(dnames), "missing_section_errors": sum(1 for r in dreal if r.startswith("err"))})
     # extended model: static values, init values, annotations
     x_streams(ck, drv, big)
+    # debug_info_item (parsed lazily, per method)
+    debug_streams(ck, drv)
     # item-level streams
     k = item_streams(ck, drv)
     ck.cover(dist={"item_stream_cases": k})
@@ -660,8 +776,13 @@ def run(ck: Check):
                     "tables (base tables + encoded_array_item, annotation_item, annotation_set_item, annotation_set_ref_list and "
                     "annotations_directory_item sections) in any layout; field / method / parameter annotation offsets inside a "
                     "directory are only stored by the loader (never dereferenced at load time) and are reported as stored")
-    ck.partial.append("debug_info_item, call sites / method handles and hidden-api data are outside the model (the loader parses "
-                      "debug info lazily, per method); the lazy getters of field / method / parameter annotations are not modelled")
+    ck.notes.append("debug_info_item: the loader keeps the section as raw bytes and parses a method's item on demand; decoder and "
+                    "file-level access are modelled (decDebugInfo / getDebug, theorems debug_info_roundtrip / debug_info_from_file, "
+                    "streams debuginfo / dexdbg); on this tree the accessor EncodedMethod.get_debug() itself always raises "
+                    "AttributeError (known finding " + KEY_GET_DEBUG + ", repair offered in fixes/C05-get-debug-off.diff): the "
+                    "stream then constructs DebugInfoItem on the file buffer at debug_info_off, which is what the accessor is meant to do")
+    ck.partial.append("call sites / method handles and hidden-api data are outside the model; the DebugInfoItemEmpty raw copy of the "
+                      "debug section and the lazy getters of field / method / parameter annotations are not modelled")
     ck.assumptions += [
         "mutf8.decode is an injective renaming of MUTF-8 byte strings that commutes with concatenation (C06); the model keeps raw bytes",
         "header validation (C09), debug info, call sites / method handles, hidden-api data are not in the model; static values and "
@@ -678,6 +799,21 @@ def replay(ck: Check, rp):
         print("nothing to replay in", rp.get("kind"))
         return 0
     data, b = M.build(model)
+    if c.get("accessor"):
+        d = _dex().DEX(data)
+        for m in d.get_encoded_methods():
+            if m.get_code() is None:
+                continue
+            try:
+                di = m.get_debug()
+                print("%s->%s: get_debug() ok, line_start %d" % (m.get_class_name(), m.get_name(), di.get_line_start()))
+                return 0
+            except Exception as e:  # noqa
+                print("%s->%s: get_debug() raises %s: %s" % (m.get_class_name(), m.get_name(), exc_name(e), e))
+                print("known finding", KEY_GET_DEBUG, "(fixes/C05-get-debug-off.diff)")
+                return 1
+        print("no method with code in this file")
+        return 0
     if c.get("extended"):
         rl = real_line_x(data)
         exp = M.expected_line(model, b) + X.expected_x(model, b, data)
